@@ -394,6 +394,10 @@ CE_SPECS = [
     {"id": "shift_res", "file": CE, "locator": _ce("result", 5)},
     {"id": "notw", "file": CE, "locator": {"kind": "in_fn", "fn": CE_HOST, "what": "match",
                                             "scrutinee": "arg.get_content(lookup.context).ty.get_uint_width(lookup.context)"}},
+    {"id": "ce_gt", "file": CE, "locator": {"kind": "in_fn", "fn": CE_HOST, "what": "match", "nth": 0,
+                                             "scrutinee": "(&args[0].get_content(lookup.context).value, &args[1].get_content(lookup.context).value,)", "arm0": "(ConstantValue::Uint(val1), ConstantValue::Uint(val2))"}},
+    {"id": "ce_lt", "file": CE, "locator": {"kind": "in_fn", "fn": CE_HOST, "what": "match", "nth": 1,
+                                             "scrutinee": "(&args[0].get_content(lookup.context).value, &args[1].get_content(lookup.context).value,)", "arm0": "(ConstantValue::Uint(val1), ConstantValue::Uint(val2))"}},
     {"id": "Intrinsic", "file": "sway-ast/src/intrinsics.rs", "locator": {"kind": "item", "item": "enum", "name": "Intrinsic", "attrs": "strip"}},
     {"id": "i2b", "file": "sway-core/src/ir_generation/function.rs",
      "locator": {"kind": "in_fn", "fn": {"kind": "impl_fn", "self_ty": "FnCompiler<'a>", "name": "compile_intrinsic_function"}, "what": "match", "scrutinee": "kind", "arm0": "Intrinsic::Add"}},
@@ -414,7 +418,12 @@ pub struct Ctx;
 impl Type { pub fn get_uint_width(&self, _c: &Ctx) -> Option<u16> { self.width } }
 pub struct Lookup<'a> { pub context: &'a Ctx }
 #[derive(Debug)] pub enum ConstEvalError { CannotBeEvaluatedToConst { span: Span } }
-#[derive(Debug, Clone, PartialEq)] pub enum ConstantValue { Uint(u64), Bool(bool) }
+#[derive(Debug, Clone, PartialEq, PartialOrd)] pub struct U256(());
+#[derive(Debug, Clone, PartialEq)] pub enum ConstantValue { Uint(u64), Bool(bool), U256(U256) }
+impl Type { pub fn get_bool(_c: &Ctx) -> Type { Type { width: None } } }
+/// shim of the uniqued Constant handle: keeps the content
+#[derive(Debug, Clone, PartialEq)] pub struct Constant(pub ConstantContent);
+impl Constant { pub fn unique(_c: &Ctx, c: ConstantContent) -> Constant { Constant(c) } }
 #[derive(Debug, Clone, PartialEq)] pub struct ConstantContent { pub ty: Type, pub value: ConstantValue }
 pub struct Intr { pub kind: Intrinsic, pub span: Span }
 pub struct Arg { pub c: ConstantContent }
@@ -442,6 +451,9 @@ pub fn ce_not(arg: &Arg, n: &u64, lookup: &Lookup) -> u64 {
     let n = @notw@;
     n
 }
+// Intrinsic::Gt / Intrinsic::Lt arms: `match (&args[0]..value, &args[1]..value) {..}` -- verbatim
+pub fn ce_gt(args: &[Arg; 2], lookup: &Lookup) -> Result<Option<Constant>, ConstEvalError> { @ce_gt@ }
+pub fn ce_lt(args: &[Arg; 2], lookup: &Lookup) -> Result<Option<Constant>, ConstEvalError> { @ce_lt@ }
 // compile_intrinsic_function: Intrinsic -> BinaryOpKind table; compile_binary_op: BinaryOpKind -> VirtualOp table
 pub fn i2b(kind: Intrinsic) -> BinaryOpKind { @i2b@ }
 #[derive(Clone, Copy, PartialEq, Debug)]
@@ -478,6 +490,18 @@ mod h {
     }
     fn w() -> Type { Type { width: if kani::any() { Some(kani::any()) } else { None } } }
     @CE_HARNESSES@
+    #[kani::proof]
+    fn ce_cmp() {
+        let (l, r): (u64, u64) = (kani::any(), kani::any());
+        let t = w();
+        let args = [Arg { c: ConstantContent { ty: t, value: ConstantValue::Uint(l) } }, Arg { c: ConstantContent { ty: t, value: ConstantValue::Uint(r) } }];
+        let lk = Lookup { context: &Ctx };
+        let flag = any_flag();
+        match ce_gt(&args, &lk) { Ok(Some(Constant(c))) => assert!(c.value == ConstantValue::Bool(vm_alu::gt(l, r, flag).value() == Some(1)), "OB: const-evaluated __gt differs from the VM GT"),
+                                  _ => assert!(false, "OB: __gt on two Uint constants must evaluate") }
+        match ce_lt(&args, &lk) { Ok(Some(Constant(c))) => assert!(c.value == ConstantValue::Bool(vm_alu::lt(l, r, flag).value() == Some(1)), "OB: const-evaluated __lt differs from the VM LT"),
+                                  _ => assert!(false, "OB: __lt on two Uint constants must evaluate") }
+    }
     #[kani::proof]
     fn ce_not_w64() {
         let x: u64 = kani::any();
@@ -516,7 +540,8 @@ def build_ceval(tier):
             obs.append(vf.Ob("ce_%s" % k.lower(), "C06", panic_prop="C17",
                              what="const_eval_intrinsic (%s, Uint, Uint): Ok(Some(v)) ==> the VM instruction selected by the real lowering tables yields v, no panic; all u64 x u64, all $flag" % k))
     src = src.replace("@CE_HARNESSES@", "\n    ".join(hs))
-    obs += [vf.Ob("ce_not_w64", "C06", panic_prop="C17", what="const_eval_intrinsic Not on u64: value == VM NOT"),
+    obs += [vf.Ob("ce_cmp", "C06", panic_prop="C17", what="const_eval_intrinsic Gt / Lt on Uint: value == VM GT / LT for all u64 x u64"),
+            vf.Ob("ce_not_w64", "C06", panic_prop="C17", what="const_eval_intrinsic Not on u64: value == VM NOT"),
             vf.Ob("ce_not_narrow", "C06", panic_prop="C17", known="D3", what="const_eval_intrinsic Not on u8/u16/u32: value == VM NOT")]
     u = vf.KaniUnit("ceval_u64", {"src/lib.rs": src, "src/vm_alu.rs": open(vf.ROOT + "/spec/vm_alu.rs").read()}, obs, timeout_s=120, jobs=12, auto_files=[CE])
     u.fragments = [vf.frag_record(fr[k]) for k in fr]
